@@ -16,6 +16,13 @@
 (*                      except of *its own* handle) - by construction of   *)
 (*                      the expected results carried by the walks          *)
 (*                                                                         *)
+(* Open is two critical sections, as in the code (loadFromCache): a lookup  *)
+(* under the read lock (a hit takes a reference there) and, after a miss,  *)
+(* a second section under the write lock that looks again - another        *)
+(* searcher may have created the entry in between - and loads or creates.  *)
+(* Counted = FALSE is the wrong variant in which the second look-up hands  *)
+(* out the index without taking a reference (TLC must refute it).          *)
+(*                                                                         *)
 (* Eviction is allowed, never required (a different expiry policy is not a *)
 (* violation).  Every edge of the state graph is emitted as a walk with    *)
 (* the expected search results; the harness replays them with the          *)
@@ -23,10 +30,10 @@
 (***************************************************************************)
 EXTENDS ZapCatalog, Json
 
-CONSTANTS Handles, MaxSteps, Emit
+CONSTANTS Handles, MaxSteps, Emit, Counted
 
 VARIABLES entry,     \* [gen, refs] or None
-          hs,        \* handle -> [st: "none" | "open" | "closed", gen, ex, filter]
+          hs,        \* handle -> [st: "none" | "missed" | "open" | "closed", gen, ex, filter]
           live, closes, pending, segOpen, ngen, hist
 
 vars == <<entry, hs, live, closes, pending, segOpen, ngen, hist>>
@@ -67,14 +74,28 @@ Rec(step) ==
 Step(op, h, ex, filter, k, elig, exp) ==
   [op |-> op, h |-> h, ex |-> SortInts(ex), filter |-> filter, k |-> k, elig |-> SortInts(elig), exp |-> exp]
 
-Open(h, ex, filter) ==
+\* first critical section (read lock): a hit takes its reference here; a miss leaves with nothing
+OpenFast(h, ex, filter) ==
   /\ segOpen /\ hs[h].st = "none" /\ Len(hist) < MaxSteps
+  /\ IF entry = None
+     THEN /\ hs' = [hs EXCEPT ![h] = [st |-> "missed", gen |-> 0, ex |-> ex, filter |-> filter]]
+          /\ Rec(Step("openmiss", h, ex, filter, 0, {}, <<>>))
+          /\ UNCHANGED entry
+     ELSE /\ entry' = [entry EXCEPT !.refs = @ + 1, !.aged = FALSE]
+          /\ hs' = [hs EXCEPT ![h] = [st |-> "open", gen |-> entry.gen, ex |-> ex, filter |-> filter]]
+          /\ Rec(Step("open", h, ex, filter, 0, {}, <<>>))
+  /\ UNCHANGED <<live, ngen, closes, pending, segOpen>>
+
+\* second critical section (write lock) after a miss: look again, load or create
+OpenSlow(h) ==
+  /\ segOpen /\ hs[h].st = "missed" /\ Len(hist) < MaxSteps
   /\ IF entry = None
      THEN /\ ngen' = ngen + 1 /\ live' = live \cup {ngen + 1}
           /\ entry' = [gen |-> ngen + 1, refs |-> 1, aged |-> FALSE]
-     ELSE /\ entry' = [entry EXCEPT !.refs = @ + 1, !.aged = FALSE] /\ UNCHANGED <<ngen, live>>     \* a hit
-  /\ hs' = [hs EXCEPT ![h] = [st |-> "open", gen |-> entry'.gen, ex |-> ex, filter |-> filter]]
-  /\ Rec(Step("open", h, ex, filter, 0, {}, <<>>))
+     ELSE /\ entry' = [entry EXCEPT !.refs = IF Counted THEN @ + 1 ELSE @, !.aged = FALSE]
+          /\ UNCHANGED <<ngen, live>>
+  /\ hs' = [hs EXCEPT ![h].st = "open", ![h].gen = entry'.gen]
+  /\ Rec(Step("openslow", h, hs[h].ex, hs[h].filter, 0, {}, <<>>))
   /\ UNCHANGED <<closes, pending, segOpen>>
 
 Search(h, k, elig) ==
@@ -107,7 +128,7 @@ EngineClose(g) ==
 
 \* the segment is closed once every handle has been closed (use after close is outside the domain)
 SegClose ==
-  /\ segOpen /\ \A h \in Handles : hs[h].st # "open" /\ Len(hist) < MaxSteps
+  /\ segOpen /\ \A h \in Handles : hs[h].st \notin {"open", "missed"} /\ Len(hist) < MaxSteps
   /\ segOpen' = FALSE
   /\ pending' = IF entry = None THEN pending ELSE pending \cup {entry.gen}
   /\ entry' = None
@@ -115,7 +136,8 @@ SegClose ==
   /\ UNCHANGED <<hs, live, closes, ngen>>
 
 Next ==
-  \/ \E h \in Handles, ex \in Excepts, f \in BOOLEAN : Open(h, ex, f)
+  \/ \E h \in Handles, ex \in Excepts, f \in BOOLEAN : OpenFast(h, ex, f)
+  \/ \E h \in Handles : OpenSlow(h)
   \/ \E h \in Handles, k \in {1, 3}, el \in Eligs : Search(h, k, IF hs[h].filter THEN el ELSE {})
   \/ \E h \in Handles : CloseH(h)
   \/ Tick \/ SegClose
